@@ -183,6 +183,66 @@ def k1_string(vals: List[Optional[str]]) -> bool:
     return _same(got, want)
 
 
+# ---- K2: SQL side ---------------------------------------------------------------------------------------
+def _discover_sql(sqltype, vals):
+    from collections import OrderedDict
+    from vp.doubles.sqldouble import FakeConnection, FakeDB
+    from tdda.constraints.db.constraints import DatabaseConstraintDiscoverer
+    from tdda.constraints.db.drivers import regex_matcher
+    saved = bc.MAX_CATEGORIES
+    bc.MAX_CATEGORIES = MAXCAT
+    try:
+        conn = FakeConnection('t', OrderedDict([('c', (sqltype, list(vals)))]), regexp=regex_matcher)
+        d = DatabaseConstraintDiscoverer('sqlite', FakeDB(conn), 't')
+        fc = d.discover_field_constraints('c')
+    finally:
+        bc.MAX_CATEGORIES = saved
+    return None if fc is None else dict(fc.to_dict_value(raw=True))
+
+
+def k2_sql_int(vals: List[Optional[int]]) -> bool:
+    """
+    pre: len(vals) <= P['rows']
+    post: __return__
+    """
+    got = _discover_sql('INTEGER', vals)
+    return _same(got, _numeric_expect(vals, 'int', allow_nodup=True))
+
+
+def k2_sql_bool(vals: List[Optional[bool]]) -> bool:
+    """
+    pre: len(vals) <= P['rows']
+    pre: rt.admit(['C07.no-duplicates-bool-date'], vals)
+    post: __return__
+    """
+    got = _discover_sql('BOOLEAN', [None if v is None else int(v) for v in vals])
+    want = _numeric_expect([None if v is None else int(v) for v in vals], 'bool', allow_nodup=True)
+    return _same(got, want)
+
+
+def k2_sql_text(vals: List[Optional[str]]) -> bool:
+    """
+    pre: len(vals) <= P['rows'] and all(v is None or len(v) <= P['nc'] for v in vals)
+    post: __return__
+    """
+    got = _discover_sql('TEXT', vals)
+    want = {'type': 'string'}
+    if len(vals) > 0:
+        nn = _nn(vals)
+        nulls = len(vals) - len(nn)
+        if nulls < 2:
+            want['max_nulls'] = nulls
+        d = _distinct(nn)
+        if nn:
+            want['min_length'] = min(len(x) for x in nn)
+            want['max_length'] = max(len(x) for x in nn)
+            if len(d) <= MAXCAT:
+                want['allowed_values'] = sorted(d)
+        if len(nn) > 1 and len(d) == len(nn):
+            want['no_duplicates'] = True
+    return _same(got, want)
+
+
 def _obs():
     obs = []
     Q, T = 'quick', 'thorough'
@@ -210,8 +270,8 @@ def _obs():
     return obs
 
 
-PREFLIGHT = ['vp.doubles.conformance:symdf_conformance']
+PREFLIGHT = ['vp.doubles.conformance:symdf_conformance', 'vp.doubles.sqldouble:sql_conformance']
 OBLIGATIONS = _obs()
 ASSUMPTIONS = ['symdf contract (vp/doubles/symdf.py), checked against real pandas by the conformance pass']
 OUTSIDE = ['pandas aggregates themselves; unsigned/nullable-extension/categorical dtypes; +-inf and NaN-vs-None',
-           'SQL side (K2: sqldouble)']
+           'what SQLite computes for a given statement beyond the conformance pass; REAL and date columns on the SQL side']
